@@ -158,6 +158,8 @@ def gourdon_stream(ctx):
                 dis.append(dict(index=i, op=o, impl=a, model="float envelope / range predicate of the theorem fails: " + pred,
                                 monitor=True))
             f = field_map(a)
+            if "xy" in f and o.split()[1] == "128" and int(f["xy"]) > 2 ** 62 + 2 ** 33:
+                dis.append(dict(index=i, op=o, impl=a, model="range_check_guarantee: x / y <= 2^62 + 2^33", monitor=True))
             if f.get("ok") == "0":
                 stats["rejected"] += 1
             elif "xy" in f:
